@@ -209,8 +209,8 @@ def _echo_bytes(sk, b, up):
     p, t, loop = make(h, None, h if up else None)
     p.data_received(mk(ECHO[sk], b, b"\r\n"))
     loop.run_ready()
-    if p.awaiting_titan_content and not t.closed:
-        return True                      # a valid titan line still waiting for its content
+    if up and not t.closed and not t.events and ECHO[sk].startswith(b"titan://"):
+        return True                      # a valid titan line still waiting for its content: nothing to say yet
     return V(well_formed(t))
 
 
